@@ -5,7 +5,7 @@
    A history [h] is any list of arrivals (non-empty chunks, then at most one FIN / RESET) and polls, in any order
    ([h_ok]); [arrived_bytes h] is the concatenation of the chunks, whatever their boundaries.  Quantifying over
    all [h] with given [arrived_bytes] is quantifying over all chunkings and all arrival / poll interleavings. *)
-From H3V Require Import Base.Bytes Gen.GenCodes Gen.GenWebTransport Spec.RFC9000 Spec.WTSpec Model.Varint Model.WebTransport
+From H3V Require Import Base.Bytes Gen.GenCodes Gen.GenWebTransport Gen.GenBufList Spec.RFC9000 Spec.WTSpec Model.Varint Model.WebTransport
   Proofs.WebTransportProofs.
 
 (* T1: the session id derived from the CONNECT stream IS that stream's id (every id, multi-byte ones included) *)
@@ -83,7 +83,7 @@ Theorem C19_uni_refines_spec :
     let st := uni_run en m (h ++ [Poll]) in
     match wt_expect_uni en (arrived_bytes h) (end_of (arrived_term h)) with
     | ObsStream s p e => uni_seen st = SeenStream s p e
-    | ObsNothing => uni_seen st = SeenNothing
+    | ObsNothing => not_surfaced_no_error (uni_seen st)
     | ObsUnconstrained =>
         uni_seen st = SeenStopped H3_STREAM_CREATION_ERROR \/ uni_seen st = SeenOther \/ uni_seen st = SeenNothing
     end.
@@ -99,14 +99,15 @@ Theorem C19_bidi_refines_spec :
 Proof. exact bidi_run_spec. Qed.
 
 (* T4: a stream of type 0x54 whose header is complete is surfaced iff enable_webtransport is set in the local
-   configuration; when it is not set the stream is dropped silently: not surfaced, no connection error, no
-   STOP_SENDING from h3 ([SeenNothing]) *)
+   configuration; when it is not set the stream is not surfaced and there is no connection error
+   ([not_surfaced_no_error s := s = SeenNothing \/ exists c, s = SeenStopped c]: whether h3 merely drops the handle -
+   what it does today - or also answers STOP_SENDING is not part of the property) *)
 Theorem C19_uni_surfaced_iff_enabled :
   forall en m h s p, mode_ok m -> h_ok h ->
     wt_parse WT_UNI_TYPE (arrived_bytes h) = WtStream s p ->
     let seen := uni_seen (uni_run en m (h ++ [Poll])) in
     (en = true -> seen = SeenStream s p (end_of (arrived_term h))) /\
-    (en = false -> seen = SeenNothing) /\
+    (en = false -> not_surfaced_no_error seen) /\
     ((exists i d e, seen = SeenStream i d e) <-> en = true).
 Proof. exact uni_gate. Qed.
 
@@ -148,7 +149,7 @@ Theorem C19_generated_facts :
   wt_into_inner_keeps_buffer = true /\ wt_gate = 1 /\
   wt_fallthrough_is_noop = true /\ wt_end_of_stream_removes = true /\ wt_session_from_connect_stream = true /\
   wt_fut_guard = 1 /\ wt_tokio_guard = 1 /\ wt_fut_take_capacity = true /\ wt_tokio_take_capacity = true /\
-  wt_split_buf_to_recv = true.
+  wt_split_buf_to_recv = true /\ push_bytes_copies_whole_buffer = true.
 Proof. exact gen_facts. Qed.
 
 (* non-vacuity *)
@@ -184,8 +185,8 @@ Example C19_tokio_inhabited :
     = SeenStream 8 [170; 187; 204] WtFin.
 Proof. vm_compute. reflexivity. Qed.
 Example C19_disabled_inhabited :
-  uni_seen (uni_run false ModeData [Arrive (Chunk [64; 84; 8; 1; 2]); Arrive Fin; Poll]) = SeenNothing.
-Proof. vm_compute. reflexivity. Qed.
+  not_surfaced_no_error (uni_seen (uni_run false ModeData [Arrive (Chunk [64; 84; 8; 1; 2]); Arrive Fin; Poll])).
+Proof. first [left; vm_compute; reflexivity | right; eexists; vm_compute; reflexivity]. Qed.
 (* header complete, then silence *)
 Example C19_liveness_inhabited :
   uni_seen (uni_run true ModeData [Arrive (Chunk [64; 84; 8]); Poll]) = SeenStream 8 [] WtOpen.
